@@ -18,7 +18,7 @@ RULE = ("each run = one server kind (threaded, thread pool with drawn nbThreads 
         "non-trivial = the server was closed while >= 1 client was connected, or >= 2 clients departed; distinct = distinct digests")
 STATE_MEASURE = "distinct (server kind, listener family, #connected at close, #departed gracefully, #departed abruptly, close placement) tuples"
 REAL = ["rpyc.utils.server.Server/ThreadedServer/ThreadPoolServer/OneShotServer/ForkingServer", "rpyc.utils.factory.connect/unix_connect",
-        "rpyc.core.stream.SocketStream.connect (+ socket_backoff_connect)", "Connection/serve_all/close", "rpyc.lib.spawn"]
+        "rpyc.core.stream.SocketStream.connect (+ socket_backoff_connect)", "Connection/serve_all/close", "rpyc.lib.spawn", "rpyc.lib.compat.PollingPoll"]
 STUB = ["kernel: listeners, accept, connect, poll, descriptors (sim/net.py)", "threads/queue/clock (simulator)", "os.fork/_exit/waitpid and signal for "
         "the forking server (modelled: the child is the same _accept_method call re-entered on a copy of the server with dup-ed descriptors)"]
 ASSUMPTIONS = ["kernel fidelity for accept/shutdown/close/poll masks", "the fork model is faithful only because os.fork() is the first statement of "
@@ -337,7 +337,7 @@ def run_one(choices, params):
             if len(server.fd_to_conn) != expect_streams:
                 raise core.Violation("table-entry-leak/fd_to_conn", "%s: fd_to_conn has %d entries, %d clients connected" % (
                     when, len(server.fd_to_conn), expect_streams), sig="ThreadPoolServer")
-            reg = getattr(server.poll_object, "_reg", {})
+            reg = getattr(getattr(server.poll_object, "_poll", server.poll_object), "_reg", {})
             stale = [fd for fd in reg if fd not in server.fd_to_conn]
             if stale:
                 raise core.Violation("table-entry-leak/poll", "%s: poll registrations for departed descriptors %r" % (when, stale))
